@@ -402,8 +402,22 @@ var checkBW = ev.Register("bandwidth", func(c *BWCase) ev.Outcome {
 		return asc[k-1] + (h-float64(k))*(asc[k]-asc[k-1])
 	}
 	iqr := q(0.75) - q(0.25)
+	if iqr == 0 && sd > 0 {
+		// the formulas still apply: min(s, 0/1.349) = 0. (A KDE cannot use that bandwidth, so
+		// only the two rules are checked.)
+		scale := 1.06 * math.Pow(float64(n), -0.2)
+		s := stats.Sample{Xs: append([]float64(nil), c.Xs...)}
+		if got := stats.BandwidthScott(s); got != 0 {
+			return ev.Fail("BandwidthScott = %v for a sample with IQR 0 and s = %v; 1.06*min(s,IQR/1.349)*n^(-1/5) = 0", got, sd)
+		}
+		kappa := 1 + math.Abs(ref.F64(ref.Mean(c.Xs)))/sd
+		if got, want := stats.BandwidthSilverman(s), scale*sd; !(math.Abs(got-want) <= (1e-12+16*float64(n)*ref.Eps*kappa)*want) {
+			return ev.Fail("BandwidthSilverman = %.15g, want %.15g", got, want)
+		}
+		return ev.OK(true, "iqr-zero")
+	}
 	if !(iqr > 0) {
-		return ev.OK(false, "iqr-zero-outside-property")
+		return ev.OK(false, "constant-sample")
 	}
 	if sd < 1e-9*math.Max(1, absMaxOf(c.Xs)) {
 		// spread at the rounding level of the data: the selected bandwidth underflows
@@ -555,7 +569,12 @@ func TestBandwidth(t *testing.T) {
 		centre := rapid.Float64Range(-1000, 1000).Draw(rt, "centre")
 		width := gen.LogUniform(rt, 0.01, 100, "width")
 		outliers := rapid.Bool().Draw(rt, "outliers")
+		tieHeavy := rapid.IntRange(0, 4).Draw(rt, "tieHeavy") == 0 // most values identical: quartiles coincide
 		for i := 0; i < n; i++ {
+			if tieHeavy && rapid.IntRange(0, 5).Draw(rt, "tied") != 0 {
+				c.Xs = append(c.Xs, centre)
+				continue
+			}
 			x := centre + width*math.Round(rapid.Float64Range(-1, 1).Draw(rt, "x")*1e6)/1e6
 			if outliers && i%7 == 0 {
 				x += width * 50 // heavy tails make IQR/1.349 the smaller scale
